@@ -147,7 +147,21 @@ def parse_run(meta, rc, stdout, stderr):
             if found:
                 props = found
                 break
-        rec = {'message': msg, 'kind': kind, 'line': line, 'site_ctx': site_ctx, 'region': region['name'] if region else None,
+        if src_lines is None:
+            try:
+                src_lines = open(meta['file'], encoding='utf-8').read().split('\n')
+            except OSError:
+                src_lines = []
+        # the failing exit / call site with the generated lines just above it (marker comments stripped): lets a known
+        # finding name ONE of several `?` exits or call sites of a function
+        site_lines = None
+        exit_spans = [sp for sp in ours if (sp.get('label') or '') in ('at this exit', 'at this call-site')] or site_spans
+        if exit_spans and src_lines:
+            ln = exit_spans[0]['line_start']
+            chunk = '\n'.join(src_lines[max(0, ln - 12):ln])
+            chunk = re.sub(r'/\*[~+\-@][^*]*\*/', '', chunk)
+            site_lines = re.sub(r'\s+', ' ', chunk).strip()[-700:]
+        rec = {'message': msg, 'kind': kind, 'line': line, 'site_ctx': site_ctx, 'site_lines': site_lines, 'region': region['name'] if region else None,
                'props': props, 'clause': clause, 'site': site,
                'rendered': d.get('rendered', '')[:4000]}
         if kind is None:
